@@ -690,7 +690,8 @@ M("c01-toobject-mutates-body", ["C01"], {"C01": ["R01.6"]}, "backend/s3mem/bucke
 """)
 
 # ---------------------------------------------------------------- C10
-REVERT("f13-revert-key-containment", ["C10"], {"C10": ["R10.1"]}, "0014-fix-fs-backends-refuse-keys-that-path-cleaning-would.patch")
+MUTANTS.append({"name": "f13-revert-key-containment", "props": ["C10"], "rules": {"C10": ["R10.1"]}, "edits": [],
+                "patchfile": __import__("os").path.join(__import__("os").path.dirname(__import__("os").path.abspath(__file__)), "f13-revert-current.diff"), "expect": None})
 REVERT("f16-revert-bolt-meta-bucket", ["C10"], {"C10": ["R10.2"]}, "0015-fix-the-bolt-bookkeeping-bucket-is-not-addressable-a.patch")
 
 M("c10-multi-head-skips-key-check", ["C10"], {"C10": ["R10.1"]}, "backend/s3afero/multi.go",
